@@ -346,6 +346,21 @@ fn prop_rt_inner(bytes: &[u8], explain: bool) -> String {
             }) {
                 tags.push("sample-file-name-ends-with-white-space");
             }
+            {
+                // F22: control points stored at distinct times (distinct under total_cmp) that are closer than the decoder's
+                // grouping epsilon: the collections keep them apart, the decoder groups their lines when they are adjacent
+                let cp = &m1.control_points;
+                let mut ts: Vec<f64> = cp.timing_points.iter().map(|p| p.time)
+                    .chain(cp.difficulty_points.iter().map(|p| p.time))
+                    .chain(cp.effect_points.iter().map(|p| p.time))
+                    .chain(cp.sample_points.iter().map(|p| p.time))
+                    .collect();
+                ts.sort_by(|a, b| a.total_cmp(b));
+                ts.dedup_by(|a, b| a.to_bits() == b.to_bits());
+                if ts.windows(2).any(|w| (w[1] - w[0]).abs() < f64::EPSILON) {
+                    tags.push("control-points-within-epsilon");
+                }
+            }
             if m1.hit_objects.iter_mut().any(computed_length_above_limit) {
                 tags.push("computed-length-above-parse-limit");
             }
@@ -413,7 +428,13 @@ pub fn prop_lines(bytes: &[u8]) -> String {
         return "FAIL breaks / colours lost".into();
     }
     if m2.control_points.timing_points.len() != m1.control_points.timing_points.len() {
-        return format!("FAIL {} timing points written, {} read back", m1.control_points.timing_points.len(), m2.control_points.timing_points.len());
+        // F22: two stored timing points whose times differ by less than the decoder's grouping epsilon (possible only when
+        // their lines were not adjacent in the input): the encoder writes them next to each other and the decoder merges them
+        let close = m1.control_points.timing_points.windows(2).any(|w| (w[1].time - w[0].time).abs() < f64::EPSILON);
+        let lost = m1.control_points.timing_points.len() - m2.control_points.timing_points.len().min(m1.control_points.timing_points.len());
+        let pairs = m1.control_points.timing_points.windows(2).filter(|w| (w[1].time - w[0].time).abs() < f64::EPSILON).count();
+        let tag = if close && lost <= pairs { " explained=timing-points-within-epsilon" } else { "" };
+        return format!("FAIL {} timing points written, {} read back{tag}", m1.control_points.timing_points.len(), m2.control_points.timing_points.len());
     }
     format!("OK lines={}", body.len())
 }
